@@ -7,6 +7,7 @@ for d in "$ROOT"/benign/*/; do
   chk=$(python3 -c "import json,sys; c=json.load(open('$d/meta.json'))['checks']; print(' '.join(c) if isinstance(c,list) else c)")
   if ! git -C "${VERIF_REPO:-/repo}" apply --check "$d/patch.diff" 2>/dev/null; then echo "$name: patch does not apply (skipped)"; continue; fi
   out=$("$ROOT/tools/benigntest.sh" "$d/patch.diff" $chk 2>&1); r=$?
+  if [ $r -eq 3 ]; then echo "$name: written against an earlier tree, does not compile on this one (skipped)"; continue; fi
   if [ $r -eq 0 ] && ! echo "$out" | grep -q "NOT EXHAUSTIVE"; then echo "$name: quiet [$chk]"; else echo "$name: ATTENTION"; echo "$out" | cut -c1-200; bad=1; fi
 done
 exit $bad
